@@ -56,13 +56,16 @@ func (f *Nconc) Call(s *slip.Scope, args slip.List, depth int) (result slip.Obje
 			}
 			if _, ok := ta[len(ta)-1].(slip.Tail); ok {
 				if list, ok := result.(slip.List); ok {
-					ta = append(ta[:len(ta)-1], list...)
+					ta = append(ta[:len(ta)-1:len(ta)-1], list...)
 				} else {
 					ta[len(ta)-1] = slip.Tail{Value: result}
 				}
 				result = ta
 				break
 			}
+			// Limit the capacity so that append never writes into spare
+			// capacity another list might already be using.
+			ta = ta[:len(ta):len(ta)]
 			if list, ok := result.(slip.List); ok {
 				ta = append(ta, list...)
 				result = ta
